@@ -35,6 +35,8 @@ Unannotated stretch at 8000 (both chromosomes).  Structures (each with a coverag
     T9's third exon but keeps the 1-bp second one: models with 1-bp exons are written like any other
  X3 full-length T1 reads whose FIRST intron is shifted as a whole by 10 bp (both sites; tolerated as intron_shift): next to K1 the same
     known isoform is supported by two different full-length paths of the intron graph - it is still reported once
+ IP unannotated three-exon locus on chr3 with a long last exon (2101-2900): half of the reads are full-length, the other half are unspliced
+    polyA reads at 2201-2600, an internal polyA site inside that exon (a novel unspliced candidate that is covered by the spliced model)
  W2 full-length reads of T7 (gene G5) WITH polyA tails: the known isoform is reported (next to J1: novel genes inside a reported gene)
  Y0 full-length reads of TA (gene G11: TA = exons 1-5, TB = exons 1,3,5)
  Y1 reads over G11 exons 1,2',3,5 where 2' starts 12 bp upstream of the annotated acceptor (more than delta, less than the
@@ -47,7 +49,7 @@ import shutil
 
 from vlib import worlds as W
 
-STRUCTS = ["K1", "K2", "K4", "P1", "Q1", "N1", "N2", "N3", "X1", "X2", "M1", "A1", "G1", "S1", "V1", "W1", "V2", "H1", "H2", "Y0", "Y1", "I1", "I2", "F1", "F2", "Z1", "Z2", "S2", "J1", "NC", "MA", "H3", "W2", "LQ", "D1", "B9", "C3", "E1", "X3"]
+STRUCTS = ["K1", "K2", "K4", "P1", "Q1", "N1", "N2", "N3", "X1", "X2", "M1", "A1", "G1", "S1", "V1", "W1", "V2", "H1", "H2", "Y0", "Y1", "I1", "I2", "F1", "F2", "Z1", "Z2", "S2", "J1", "NC", "MA", "H3", "W2", "LQ", "D1", "B9", "C3", "E1", "X3", "IP"]
 NC_EXONS = [[6501, 6650], [6801, 6950], [7101, 7300]]
 # three unannotated loci inside gene G5 (+): two on '+' (in introns 1 and 3), one antisense spanning both (canonical for '-')
 J_PLUS_A = [[9321, 9420], [9521, 9620], [9681, 9780]]
@@ -62,7 +64,7 @@ G5_EXONS = [[9001, 9300], [9801, 10000], [10601, 10800], [11401, 11700], [12501,
 LEVELS = (1, 3, 12)
 # structures by the locus they live in (structures of different loci do not interact except through id numbering)
 LOCUS = {"G1": ["K1", "K2", "P1", "Q1", "N1", "N2", "N3", "X1", "X2", "A1", "S1", "V1", "I1", "I2", "D1", "X3"], "G2": ["K4"], "U1": ["M1"], "U2": ["G1"],
-         "G5": ["W1", "V2", "J1", "W2"], "G6": ["H1", "H2", "F1", "F2", "H3"], "G11": ["Y0", "Y1"], "ZA": ["Z1"], "ZB": ["Z2"], "U3": ["S2"], "U4": ["NC"], "U5": ["MA"], "U6": ["LQ"], "U7": ["B9"], "U8": ["C3"], "G8": ["E1"]}
+         "G5": ["W1", "V2", "J1", "W2"], "G6": ["H1", "H2", "F1", "F2", "H3"], "G11": ["Y0", "Y1"], "ZA": ["Z1"], "ZB": ["Z2"], "U3": ["S2"], "U4": ["NC"], "U5": ["MA"], "U6": ["LQ"], "U7": ["B9"], "U8": ["C3", "IP"], "G8": ["E1"]}
 LOCUS_OF = {st: loc for loc, sts in LOCUS.items() for st in sts}
 
 
@@ -178,6 +180,11 @@ def structure_reads(struct, level, tag):
                 reads.append(W.read_of(nm, "chr2", [[5001, 5200], [5401, 5401], [5601, 5800], [6001, 6001]]))
             else:
                 reads.append(W.read_of(nm, "chr2", [[5001, 5200], [5401, 5401], [6201, 6400]]))
+        elif struct == "IP":
+            if k % 2 == 0:
+                reads.append(W.read_of(nm, "chr3", [[1201, 1400], [1601, 1800], [2101, 2900]]))
+            else:
+                reads.append(W.read_of(nm, "chr3", [[2201, 2600]]))
         elif struct == "W2":
             reads.append(W.read_of(nm, "chr1", G5_EXONS))
         elif struct == "Y0":
@@ -247,6 +254,7 @@ def make_world(scenario, annotated=True):
     W.add_sites_for_blocks(w, "chr3", [[1001, 1200], [1501, 1700], [2001, 2300]], "+")
     W.add_sites_for_blocks(w, "chr1", [[slot(0)[0], slot(0)[1] + 10], [slot(1)[0] + 10, slot(1)[1]]], "+")
     W.add_sites_for_blocks(w, "chr2", [[5401, 5401], [6201, 6400]], "+")
+    W.add_sites_for_blocks(w, "chr3", [[1201, 1400], [1601, 1800], [2101, 2900]], "+")
     W.add_sites_for_blocks(w, "chr2", [[Z_EXONS[0][0], Z_EXONS[0][1] + 4], Z_EXONS[1], Z_EXONS[2]], "+")
     W.dedup_sites(w)
     reads = []
